@@ -58,7 +58,10 @@ COV_FILES = [
 ]
 # parameters documented as modified in place (or consumed: only fresh temporaries are passed, which the
 # theorems of the callers check through the interprocedural run)
-ALLOWED = {'beamline._drop_due_to_gravity': ['distance'], 'fit_peaks._separate_from_neighbors_in_place': ['windows']}
+ALLOWED = {'beamline._drop_due_to_gravity': ['distance'], 'fit_peaks._separate_from_neighbors_in_place': ['windows'],
+           # Block.add appends to the block it is called on (its documented effect); the chunk / loop / mapping and the comment
+           # it is handed are ordinary arguments
+           'cif.Block.add': ['self']}
 
 
 def theorem_functions():
@@ -135,6 +138,9 @@ ROOTS = [
     'cascade.propagate_times', 'cascade._chop', 'cascade.Subframe.propagate_by', 'cascade.Frame.chop', 'cascade.Frame.propagate_to',
     'cylinder.Cylinder.beam_intersection', 'cylinder.Cylinder.quadrature',
     'cif.CIF.with_reduced_powder_data', 'cif.CIF.with_powder_calibration', 'cif.CIF._assemble_authors',
+    # the low-level CIF interface: Block.add with ready-made chunks / loops, the constructor calls
+    'cif.Block.add', 'cif.Block.<new>', 'cif.Loop.<new>', 'cif.Chunk.<new>',
+    'model.GaussianModel.fwhm', 'model.LorentzianModel.fwhm', 'model.PseudoVoigtModel.fwhm',
     # chopper family: '<new>' is the constructor call DiskChopper(...) (a fresh instance initialised by the dataclass
     # __init__ and __post_init__, i.e. the validation of the caller's slit edges)
     'diskchopper.DiskChopper.<new>', 'diskchopper.DiskChopper.from_nexus', 'diskchopper.DiskChopper.time_offset_open',
@@ -413,8 +419,15 @@ def correspondence(ctx):
         ctx.violation('corr-shard-error', f'correspondence shard {name} did not evaluate: {e[:300]}', {'shard': name, 'error': e},
                       found_input=False)
     # shortest failing history first (one replay per failure class)
+    per_entry = {}
     for i, why in sorted(fails.items(), key=lambda kv: (len(descs[kv[0]].get('history', [])), kv[0])):
         d = descs[i]
+        if d['kind'] == 'call':
+            # at most 4 replays per entry point (the value / sharing classes in [...] of one entry point fail together)
+            base = d['label'].split('[')[0]
+            per_entry.setdefault(base, set()).add(d['label'])
+            if len(per_entry[base]) > 4:
+                continue
         if d['kind'] == 'call' and d['label'].endswith('[aligned]'):
             d = dict(d, label=d['label'][:-len('[aligned]')], combo=dict(d['combo'], aligned=d.get('aligned')))
         if d['kind'] == 'row':
@@ -452,8 +465,8 @@ def correspondence(ctx):
         'evaluations': len(terms),
         'distinct_nontrivial': distinct,
         'rule': 'rows: one per primitive of the aliasing table; calls: public entry points of conversion.tof/beamline, '
-                'tof.chopper_cascade, peaks, absorption, chopper (disk chopper construction / methods x slit-edge value classes, '
-                'filtering, NeXus extraction), io, atoms, graph factories x (dtype, unit, layout) variants '
+                'tof.chopper_cascade, peaks (model evaluation x degenerate parameter value classes), absorption, chopper (disk chopper construction / methods x slit-edge value classes, '
+                'filtering, NeXus extraction), io (builder and the low-level Block / Loop / Chunk interface with shared ready-made items), atoms, graph factories x (dtype, unit, layout) variants '
                 '(non-trivial = the call returned normally; a refusal still has its arguments checked); histories: ordered '
                 'triples / pairs of factory-lookup instances with mutation of every returned handle through every path '
                 f'({"sampled 700 triples per family" if ctx.tier == "quick" else "all triples"}); distinct = distinct (label, variant) / history',
@@ -480,6 +493,20 @@ def correspondence(ctx):
                                          '_repr_html_, tof.chopper_cascade.Chopper.from_disk_chopper; rotation sense and frequency ratio '
                                          '(1, 2, 1/2 of the pulse frequency) from the seed',
             'filtering': 'find_plateaus (float / int64 time coordinate, min_n_points int or index variable), collapse_plateaus, filter_in_phase',
+            'peak model parameters': 'GaussianModel / LorentzianModel / PseudoVoigtModel / CompositeModel (polynomial+gaussian, lorentzian+pseudo-voigt) '
+                                     '.__call__ and .fwhm, FitResult.eval_model / eval_peak / remove_peaks x parameter VALUE classes: ordinary | '
+                                     'scale = 0 | smallest normal float | negative | -0.0 | inf | amplitude 0 / negative | loc outside the x range | '
+                                     'all zero | fraction 0 / 1 / > 1 | parameters with variances (0-d x) | scale = 0 with variances | signs and '
+                                     'magnitudes from the seed; polynomial coefficients ordinary / all zero / negative (a write that stores the '
+                                     'value already present for ordinary parameters only shows for the degenerate ones)',
+            'cif low-level interface': 'Block.add(item, comment) x item kind (ready-made Loop | Chunk | dict | list of pairs) x item has its own comment '
+                                       'or not x comment argument absent | ascii | non-ascii x sharing (unshared | item also in an earlier block built by '
+                                       'the constructor / by add | target is a Block.copy of that block | item already in the target); watched besides the '
+                                       'arguments: the earlier block, the text it writes, the text the item writes.  Loop.__setitem__ / Chunk.__setitem__ '
+                                       '(new / existing key, refused length) with the mapping the object was built from and a sibling built from the same '
+                                       'mapping watched; Loop / Chunk / Block constructors with ready-made items, comments, schemas; save_cif and Block.write '
+                                       'on blocks sharing items; Block.schema; builder with_reduced_powder_data / with_powder_calibration with comment on a '
+                                       'base that already holds data; history mutation of a Block.copy through add(existing item, comment=...)',
             'aligned variants': 'arguments (top-level, attributes of argument objects, items of dict / DataGroup arguments) converted to the unit / '
                                 'dtype of every traced copy=False conversion of the argument OR OF A VIEW of it (numpy.shares_memory)',
         },
@@ -579,8 +606,10 @@ def search(ctx, broken):
     seen = set()
     for c in res['calls']:
         if not (c.get('changed') or c.get('repeat_equal') is False) or c['label'] in seen:
-            continue              # one replay per entry point
+            continue              # one replay per entry point and value / sharing class, at most 4 per entry point
         seen.add(c['label'])
+        if sum(1 for l_ in seen if l_.split('[')[0] == c['label'].split('[')[0]) > 4:
+            continue
         if c.get('changed'):
             ctx.violation(f'arg-modified:{c["label"]}', f'{c["label"]} modified an argument (first difference at {c["changed"]}) '
                           f'with {c["combo"]}', {'call': c['label'], 'combo': c['combo'], 'changed': c['changed']})
@@ -638,6 +667,11 @@ TRUSTED = [
     'buffer and its own coords / masks dicts holding the same variables (validated by a harness row); enumeration classes defined '
     'conditionally at module level (try/except ImportError) are immutable values, calling one only reads its arguments; '
     'DiskChopper.make_svg (chopper/_svg.py uses nested function definitions) is outside the alias language: covered by the snapshot harness only',
+    'stores x.value / x.values / x.variance / x.variances / x.unit = v (x not the self of an analysed class) write the storage x is a handle of '
+    '(translated as SAug: seen through the original of a shallow copy and through views; validated by harness rows); '
+    'cif: Block.add is analysed with self exempt (appending to the block is its documented effect), its callers CIF.save / _add_audit and the '
+    'write methods (method dispatch over every class with .write makes the call tree too large), Loop.__setitem__ / Chunk.__setitem__ '
+    '(the blob summary cannot separate the stored value from the container) are covered by the snapshot harness only',
     'tools/harness/c09_impl.py: deep snapshots (values, variances, unit, dtype, dims, coords, masks, container identity structure), '
     'argument generators, reset of lru caches / module tables between histories',
 ]
